@@ -114,9 +114,14 @@ macro_rules
     | exact noEval_extractValue _ _ _
     | exact noEval_setInThread _ _ _ _ _)
 
+theorem noEval_injectSecond (env : Env) (tid : Nat) (v : Str) : NoEval (injectSecond env tid v) := by
+  have hs := noEval_setInThread env tid v
+  unfold injectSecond; noeval
+
 theorem noEval_injectValue (g : Guards) (env : Env) (tid : Nat) (v e : Str) (h : env.eval e ≠ .diverges) :
     NoEval (injectValue g env tid v e) := by
   have he := noEval_evalExpr h
+  have h2 := noEval_injectSecond env tid v
   unfold injectValue; noeval
 
 
